@@ -115,6 +115,20 @@ pub fn edits(prog: &Program, tier: Tier) -> Vec<Edit> {
                 for (defs, u, what) in fam {
                     out.push(Edit { kind: "E1n-never-a-column", text: format!("{defs}{text}{u}\n"), what: format!("{what} is not a column of the fully known frame after step {j}") });
                 }
+                // E1d: names of declarations that are not columns — a module, a let-bound relation, the joined side
+                if j == n {
+                    let decls: Vec<(String, String, &str)> = vec![
+                        (String::new(), "sort std".into(), "the module `std`"),
+                        (String::new(), "derive {zq = std.math}".into(), "the module `std.math`"),
+                        (String::new(), "derive {zq = that}".into(), "`that` outside a join"),
+                        ("let zrel = (from u)\n".into(), "select {zq = zrel}".into(), "a let-bound relation used as a value"),
+                        ("module zmod { let zk = 1 }\n".into(), "derive {zq = zmod}".into(), "a user module"),
+                    ];
+                    for (defs, u, what) in decls {
+                        let kind = if what.starts_with("`that`") { "E1d-that-outside-a-join" } else if what.starts_with("a let-bound relation") { "E1d-relation-name-as-value" } else { "E1d-module-name-as-value" };
+                        out.push(Edit { kind, text: format!("{defs}{text}{u}\n"), what: format!("{what} is not a column of the fully known frame") });
+                    }
+                }
             }
         }
         // E2: bare name matching columns of two fully known relations, directly after the join
